@@ -6,7 +6,7 @@ use std::future::Future;
 use std::pin::Pin;
 use std::task::{Context, Poll};
 
-use crux_core::command::CommandContext;
+use crux_core::command::{CommandContext, CommandOutput};
 use crux_core::Command;
 use futures::future::Either;
 use futures::stream::FuturesUnordered;
@@ -28,8 +28,19 @@ thread_local! {
     pub static CAPS: RefCell<Option<(crux_core::capability::CapabilityContext<OpA, Event>, crux_core::capability::CapabilityContext<OpB, Event>)>> = const { RefCell::new(None) };
 }
 
+thread_local! {
+    /// Effects of nested commands that a program drives by hand (`JoinHosted`): the program's own
+    /// channel to the shell. The command-level hosts drain it after every run of the command.
+    pub static SIDE: RefCell<Vec<Effect>> = const { RefCell::new(Vec::new()) };
+}
+
+pub fn take_side() -> Vec<Effect> {
+    SIDE.with(|v| std::mem::take(&mut *v.borrow_mut()))
+}
+
 pub fn clear_aborts() {
     ABORTS.with(|a| a.borrow_mut().clear());
+    let _ = take_side();
 }
 
 pub fn fire_abort(k: u8) -> bool {
@@ -396,6 +407,26 @@ pub fn build(p: &P) -> Cmd {
                     let c2 = ca.clone();
                     ca.spawn(async move { c2.notify_shell(OpA::make(n.label, v)).await });
                 }
+            })
+        }
+        P::JoinHosted(s, q) => {
+            // built eagerly, like every nested command (its abort handles exist before anything runs)
+            let mut child = build(&q);
+            Command::new(move |ctx| async move {
+                let own = areq_owned(ctx.clone(), s, 0);
+                let host = {
+                    let ctx = ctx.clone();
+                    async move {
+                        while let Some(o) = child.next().await {
+                            match o {
+                                CommandOutput::Effect(e) => SIDE.with(|v| v.borrow_mut().push(e)),
+                                CommandOutput::Event(ev) => ctx.send_event(ev),
+                            }
+                        }
+                    }
+                };
+                let (v, ()) = futures::future::join(own, host).await;
+                ctx.send_event(Event::got(s, v));
             })
         }
         P::SiblingAbort(s, q) => {
